@@ -135,6 +135,7 @@ class AV:
         if k == 'dict':
             return (k, tuple(sorted(((repr(a), v.key())
                                      for a, v in (self.keys or {}).items()))),
+                    self.elem.key() if self.elem is not None else None,
                     repr(self.label))
         if k == 'func':
             return (k, id(self.fn), id(self.env))
@@ -144,6 +145,9 @@ class AV:
             return (k, self.pv)
         if k == 'obj':
             return (k, self.oid)
+        if k == 'set':
+            return (k, None if self.items is None else
+                    tuple(sorted(repr(x.c) for x in self.items)))
         return (k, id(self))
 
     def __repr__(self):
@@ -249,7 +253,48 @@ def GEN(pv):
     return AV('gen', pv=pv)
 
 
+class SymKey(object):
+    """A dictionary key that is not a literal: a symbolic integer or a tuple
+    of integers / strings (memo tables keyed by sizes).  Two keys are the
+    same key when they are the same expressions."""
+    __slots__ = ('r', 'av')
+
+    def __init__(self, r, av):
+        self.r = r
+        self.av = av
+
+    def __hash__(self):
+        return hash(self.r)
+
+    def __eq__(self, other):
+        return isinstance(other, SymKey) and self.r == other.r
+
+    def __repr__(self):
+        return 'SymKey%r' % (self.r,)
+
+
+def dict_key(idx):
+    """Hashable key for an abstract subscript of a dict, or None."""
+    if idx is None:
+        return None
+    if idx.k in ('str', 'int', 'bool') and idx.has_const():
+        return idx.c
+    if idx.k == 'int' and idx.p is not None:
+        return SymKey(('p', repr(idx.p.key())), idx)
+    if idx.k == 'tuple' and idx.items is not None:
+        parts = []
+        for x in idx.items:
+            kx = dict_key(x)
+            if kx is None:
+                return None
+            parts.append(kx.r if isinstance(kx, SymKey) else ('c', kx))
+        return SymKey(('t',) + tuple(parts), idx)
+    return None
+
+
 def from_const(c):
+    if isinstance(c, SymKey):
+        return c.av
     if c is None:
         return NONE()
     if isinstance(c, bool):
@@ -355,6 +400,10 @@ def join(a, b):
             keys[kk] = join(va, vb) if va is not None and vb is not None \
                 else (va or vb).copy(maybe_none=True)
         r = AV('dict', keys=keys)
+        if a.elem is not None and b.elem is not None:
+            r.elem = join(a.elem, b.elem)
+        else:
+            r.elem = a.elem or b.elem
         r.label = a.label if a.label == b.label else (
             ('J', a.label, b.label) if (a.label or b.label) else None)
         return r
@@ -375,6 +424,12 @@ def join(a, b):
         return a if a.ext == b.ext else TOP()
     if k == 'obj':
         return a if a.oid == b.oid else TOP()
+    if k == 'set':
+        if a.items is not None and b.items is not None and \
+                sorted(repr(x.c) for x in a.items) == \
+                sorted(repr(x.c) for x in b.items):
+            return a
+        return AV('set')
     return a
 
 
